@@ -1,9 +1,9 @@
 (* Correspondence runners for C13.
    Instance of the abstract model: an embedding is (dimension, vector id) -- the harness
-   numbers the distinct float vectors of a case --, a distance is `f32key` (None = NaN,
-   Some b = bits of a non-negative float), and `dist` is the finite table of the distances
-   the REAL kernel (memvid_core::simd::l2_distance_simd) returned for (query id, vector id).
-   The comparison is f32_le = partial_cmp(..).unwrap_or(Equal) read as "not Greater". *)
+   numbers the distinct float vectors of a case --, a distance is the raw f32 bit pattern
+   (N), and `dist` is the finite table of the distances the REAL kernel
+   (memvid_core::simd::l2_distance_simd) returned for (query id, vector id).
+   The comparison is f32_nan_last_le = (is_nan, total_cmp) read as "not Greater". *)
 From MV Require Import Base.Prelude Model.StableSort Model.VecSearch.
 Local Open Scope N_scope.
 
@@ -16,49 +16,32 @@ Fixpoint assoc {B} (k : N) (t : list (N * B)) : option B :=
   | (k', v) :: r => if N.eqb k k' then Some v else assoc k r
   end.
 
-Definition dtable := list (N * list (N * f32key)).
-Definition cdist (t : dtable) (q e : CE) : f32key :=
+Definition dtable := list (N * list (N * N)).
+(* a pair missing from the table gets a value no f32 has (shows up as a mismatch) *)
+Definition cdist (t : dtable) (q e : CE) : N :=
   match assoc (snd q) t with
-  | Some row => match assoc (snd e) row with Some d => d | None => None end
-  | None => None
+  | Some row => match assoc (snd e) row with Some d => d | None => U32_MOD end
+  | None => U32_MOD
   end.
 
 Definition mkdocs (l : list (N * CE)) : list (doc CE) := map (fun p => mkDoc (fst p) (snd p)) l.
 
-(* ---- stream "api": VecIndexBuilder -> finish -> VecIndex::decode -> search ---- *)
+(* ---- streams "api" and "nan": VecIndexBuilder -> finish -> VecIndex::decode -> search
+   ("nan" = the same calls with NaN / +-inf components; since the comparison is a total order the exact hit list
+   is compared there too) ---- *)
 Definition C13_api_in := (list (N * CE) * list (CE * N) * dtable)%type.
-Definition C13_api_out := (N * N * list (outcome (list (N * f32key))))%type.
+Definition C13_api_out := (N * N * list (outcome (list (N * N))))%type.
 
 Definition C13_api_run (i : C13_api_in) : C13_api_out :=
   let '(ds, qs, t) := i in
   let docs := mkdocs ds in
   (finish_count CE docs, finish_dimension CE cdim docs,
-   map (fun qk => index_search CE f32key cdim (cdist t) f32_le docs (fst qk) (snd qk)) qs).
-
-(* ---- stream "nan": same calls, distances may be NaN: outside the guard only the length
-   and, when nothing is cut off, the multiset of hits are compared ---- *)
-Definition key_num (k : f32key) : N := match k with Some b => b | None => 4294967296 end.
-Definition canon_le (a b : N * f32key) : bool :=
-  if N.ltb (fst a) (fst b) then true
-  else if N.ltb (fst b) (fst a) then false
-  else N.leb (key_num (snd a)) (key_num (snd b)).
-
-Definition C13_nan_out := list (outcome (N * list (N * f32key))).
-Definition C13_nan_run (i : C13_api_in) : C13_nan_out :=
-  let '(ds, qs, t) := i in
-  let docs := mkdocs ds in
-  map (fun qk =>
-         match index_search CE f32key cdim (cdist t) f32_le docs (fst qk) (snd qk) with
-         | Ok hs => Ok (N.of_nat (length hs),
-                        if N.leb (N.of_nat (length docs)) (snd qk) then isort canon_le hs else [])
-         | Err k => Err k
-         | Panic s => Panic s
-         end) qs.
+   map (fun qk => index_search CE N cdim (cdist t) f32_nan_last_le docs (fst qk) (snd qk)) qs).
 
 (* ---- stream "mem": histories on a real memory ---- *)
 Definition C13_mem_in := (list (vop CE) * dtable)%type.
-Definition C13_mem_out := list (outcome (list (N * f32key))).
+Definition C13_mem_out := list (outcome (list (N * N))).
 
 Definition C13_mem_run (i : C13_mem_in) : C13_mem_out :=
   let '(ops, t) := i in
-  snd (vrun CE f32key cdim (cdist t) f32_le vinit ops).
+  snd (vrun CE N cdim (cdist t) f32_nan_last_le vinit ops).
